@@ -418,5 +418,5 @@ def obligations(tier, seed):
             oid, harness_for(f, where, steps), f"require {text(f)} at {where}, maxSteps={steps}",
             {"atoms": 2, "trace_steps": steps + 1, "formula_depth": depth_of(f)}, enc,
             ["DummySimulator as simulator", "atoms read a step-indexed symbolic truth table via a builtins hook"],
-            opts=dict(total_timeout=200.0, per_path_timeout=30.0), setup=warm(f, where, steps)))
+            opts=dict(total_timeout=(200.0 if tier == "quick" else 900.0), per_path_timeout=(30.0 if tier == "quick" else 90.0)), setup=warm(f, where, steps)))
     return obs
